@@ -1071,8 +1071,76 @@ func genC02Bulk(g *Gen, tier string) Scenario {
 	return s
 }
 
+// genC02Sizes: messages whose wire length, NUL included, is exactly a
+// power-of-two block size or a multiple of one, and one byte less and more -
+// the sizes at which chunked writes and buffer refills change branches.
+func genC02Sizes(g *Gen, tier string) Scenario {
+	s := &E2EScenario{Prop: "C02", Config: genConfig(g), Scripts: map[int]Script{}}
+	s.Config.MaxLatencyUs, s.Config.PipeCap, s.Config.MaxSteps = 0, []int{0, 4096, 65536}[g.IntN(3)], 400000
+	if s.Config.ShortReads == 2 {
+		s.Config.ShortReads = 1
+	}
+	s.Service = genService(g, 1, "unix:@sizes")
+	method := s.Service.Ifaces[0].Name + ".M"
+	type mirror struct {
+		Method     string          `json:"method,omitempty"`
+		Parameters json.RawMessage `json:"parameters,omitempty"`
+		More       bool            `json:"more,omitempty"`
+	}
+	// pad returns parameters such that the frame made of them is `target` bytes long on the wire
+	pad := func(cid int, request bool, target int) string {
+		mk := func(n int) string {
+			p := `{"pad":"` + strings.Repeat("a", n) + `"}`
+			if request {
+				return withCid(cid, p)
+			}
+			return p
+		}
+		frame := func(n int) int {
+			m := mirror{Parameters: json.RawMessage(mk(n))}
+			if request {
+				m.Method = method
+			}
+			b, _ := json.Marshal(m)
+			return len(b) + 1
+		}
+		n := target - frame(0)
+		if n < 0 {
+			n = 0
+		}
+		return mk(n)
+	}
+	cl := E2EClient{Transport: g.Pick("stream", "stream", "bridge")}
+	cid := 0
+	blocks := []int{4096, 8192, 12288, 65536, 131072}
+	if tier == "thorough" {
+		blocks = append(blocks, 196608, 262144, 1<<20)
+	}
+	for i, n := 0, 1+g.IntN(2); i < n; i++ {
+		t := blocks[g.IntN(len(blocks))]
+		request := g.Pct(50)
+		for _, target := range []int{t - 1, t, t + 1} {
+			cid++
+			call := E2ECall{Cid: cid, Method: method, Via: g.Pick("send", "call")}
+			if request {
+				call.Params = pad(cid, true, target)
+				s.Scripts[cid] = Script{Actions: []Action{{Op: "reply", Params: `{"ok":true}`}}}
+			} else {
+				call.Params = withCid(cid, "{}")
+				s.Scripts[cid] = Script{Actions: []Action{{Op: "reply", Params: pad(cid, false, target), ByValue: g.Pct(50)}}}
+			}
+			cl.Calls = append(cl.Calls, call)
+		}
+	}
+	s.Clients = []E2EClient{cl}
+	return s
+}
+
 func genC02(seed uint64, tier string) Scenario {
 	g := NewGen(seed, 0xC02)
+	if g.IntN(40) == 0 {
+		return genC02Sizes(g, tier)
+	}
 	if g.IntN(1500) == 0 || os.Getenv("VERIF_DEV_FORCE_BULK") != "" {
 		return genC02Bulk(g, tier)
 	}
